@@ -767,7 +767,10 @@ def _size_threshold_cases(rng, tier):
         return 2 ** k + rng.choice([-1, 0, 1])
     def spread(n, centre, span):
         # n values around `centre`, many distinct, crossing it in both directions, in a scrambled order
-        return [int(centre - span // 2 + (i * 7919 + 13) % span) for i in range(n)]
+        # the global minimum and maximum sit in the last two positions (a reduction whose counter stops early misses them)
+        v = [int(centre - span // 2 + (i * 7919 + 13) % span) for i in range(n)]
+        v[-1], v[-2] = centre - span // 2 - 1, centre + span // 2 + 1
+        return v
     out = []
     n = npx(8)
     out.append(dict(kind='stretch', size='threshold', dtype='int16', shape=[1, n], data=spread(n, 256, 300), form=2, lo=-128, hi=127,
@@ -786,7 +789,7 @@ def _size_threshold_cases(rng, tier):
                     rgb=True, layout='C', cls='threshold'))
     n = npx(16)
     out.append(dict(kind='as_rgb', size='threshold', cls='image', shape=[1, n], chans=[
-        dict(t='array', dtype='uint16', data=[(i * 7919) % 65536 for i in range(n)]),
+        dict(t='array', dtype='uint16', data=[1 + (i * 7919) % 65534 for i in range(n - 2)] + [65535, 0]),
         dict(t='array', dtype='float64', data=[float(65536 - 1000 + (i * 31) % 2000) + 0.5 for i in range(n)]),
         rng.choice([None, dict(t='scalar', v=rng.randint(0, 255))])]))
     # colour conversions on more than 2^16 pixels: column form against the Lean model, image form in a strided layout
